@@ -174,7 +174,7 @@ func sameNamePairs(prefix string) []SCase {
 				a, b, ra, rb = b, a, rb, ra
 			}
 			out = append(out, SCase{ID: fmt.Sprintf("%s/same-name-pair/%s/order=%d", prefix, p.name, order), Cfg: baseCfg(),
-				Axes:   map[string]string{"pos": "same-name-pair", "leaf": p.name},
+				Axes: map[string]string{"pos": "same-name-pair", "leaf": p.name},
 				Schema: J{"type": "object", "properties": J{"x": J{"$ref": "#/$defs/limits"}, "y": J{"$ref": "#/$defs/Limits"}},
 					"$defs": J{"limits": mk(a, ra), "Limits": mk(b, rb), "RS": J{"type": "string", "minLength": 1}, "RI": J{"type": "integer", "minimum": 0}}}})
 		}
